@@ -73,7 +73,12 @@ def build(prop: str) -> BuildResult:
         rc, out = _run(["lake", "build", "cbidriver"], cwd=LEAN)
         res.log += out[-4000:]
         res.driver_ok = rc == 0 and DRIVER.exists()
-        rc, out = _run(["lake", "build", f"CbiVerif.Props.{prop}"], cwd=LEAN)
+        try:
+            mods = json.loads((VERIF / "obligations" / f"{prop}.json").read_text()).get("modules", [])
+        except Exception:  # noqa
+            mods = []
+        mods = [f"CbiVerif.Props.{prop}"] + [m for m in mods if m != f"CbiVerif.Props.{prop}"]
+        rc, out = _run(["lake", "build"] + mods, cwd=LEAN)
         res.log += out[-6000:]
         res.lib_ok = rc == 0
         if rc != 0:
